@@ -20,6 +20,7 @@ fn any_creds() -> NetworkCredentials {
 #[kani::proof]
 #[kani::unwind(24)]
 fn join_request_exact() {
+    crate::mac::verif_kani_lorawan_device_mac_common::vinit();
     let probe: usize = kani::any();
     model::reset(probe);
     let appeui: [u8; 8] = kani::any();
@@ -31,32 +32,33 @@ fn join_request_exact() {
     let mut buf = RadioBuffer::<64>::new();
     let nonce = otaa.prepare_buffer::<mc::AnyRng, 64>(&mut rng, &mut buf);
     let f = buf.as_ref_for_read();
-    assert!(f.len() == 23, "C11: JoinRequest is 23 bytes");
-    assert!(f[0] == 0x00, "C11: MHDR JoinRequest");
+    crate::vcheck!(f.len() == 23, "C11: JoinRequest is 23 bytes");
+    crate::vcheck!(f[0] == 0x00, "C11: MHDR JoinRequest");
     let k: usize = kani::any();
     kani::assume(k < 8);
     // identifiers are configured LSB-first (wire order) in keys::AppEui / keys::DevEui
-    assert!(f[1 + k] == appeui[k], "C11: JoinEUI bytes");
-    assert!(f[9 + k] == deveui[k], "C11: DevEUI bytes");
-    assert!(f[17] == nonce as u8 && f[18] == (nonce >> 8) as u8, "C11: DevNonce little-endian");
-    assert!(otaa.dev_nonce.value() == nonce, "C11: the DevNonce sent is remembered for key derivation");
+    crate::vcheck!(f[1 + k] == appeui[k], "C11: JoinEUI bytes");
+    crate::vcheck!(f[9 + k] == deveui[k], "C11: DevEUI bytes");
+    crate::vcheck!(f[17] == nonce as u8 && f[18] == (nonce >> 8) as u8, "C11: DevNonce little-endian");
+    crate::vcheck!(otaa.dev_nonce.value() == nonce, "C11: the DevNonce sent is remembered for key derivation");
     unsafe {
-        assert!(model::MIC_N == 1 && model::ENC_N == 0, "C11: one MIC computation");
+        crate::vcheck!(model::MIC_N == 1 && model::ENC_N == 0, "C11: one MIC computation");
         let m = &model::MICS[0];
-        assert!(m.key == model::pack(&appkey), "C11: JoinRequest MIC under the root key");
-        assert!(m.b0_len == 0 && m.len == 19, "C11: MIC over MHDR|JoinEUI|DevEUI|DevNonce");
+        crate::vcheck!(m.key == model::pack(&appkey), "C11: JoinRequest MIC under the root key");
+        crate::vcheck!(m.b0_len == 0 && m.len == 19, "C11: MIC over MHDR|JoinEUI|DevEUI|DevNonce");
         if probe < 19 {
-            assert!(m.probe == f[probe], "C11: MIC covers the frame");
+            crate::vcheck!(m.probe == f[probe], "C11: MIC covers the frame");
         }
-        assert!(f[19] == m.out[0] && f[20] == m.out[1] && f[21] == m.out[2] && f[22] == m.out[3], "C11: MIC placed");
+        crate::vcheck!(f[19] == m.out[0] && f[20] == m.out[1] && f[21] == m.out[2] && f[22] == m.out[3], "C11: MIC placed");
     }
 }
 
 fn join_accept_step(ri: usize, len: usize) {
+    crate::mac::verif_kani_lorawan_device_mac_common::vinit();
     let probe: usize = kani::any();
     model::reset(probe);
     unsafe { model::CONSISTENT = false; }
-    let r = rt::REGIONS[ri];
+    let r = rt::region_ut(ri);
     let fixed = rt::is_fixed(r);
     let mut region = rt::any_region(r);
     let mut cfg = mc::any_configuration();
@@ -81,40 +83,40 @@ fn join_accept_step(ri: usize, len: usize) {
     let mut d = [0u8; 32]; // decrypted bytes 1..len
     unsafe {
         if structure {
-            assert!(model::ENC_N >= nb, "C11: JoinAccept is decrypted with the AES encrypt primitive, one call per block");
+            crate::vcheck!(model::ENC_N >= nb, "C11: JoinAccept is decrypted with the AES encrypt primitive, one call per block");
             let mut b = 0;
             while b < 2 {
                 if b < nb {
                     let e = model::ENC[b];
-                    assert!(e.key == model::pack(&appkey) && !e.decrypt, "C11: JoinAccept decrypted under the root key");
-                    assert!(e.input == model::pack(&frame[1 + 16 * b..17 + 16 * b]), "C11: decryption block input");
+                    crate::vcheck!(e.key == model::pack(&appkey) && !e.decrypt, "C11: JoinAccept decrypted under the root key");
+                    crate::vcheck!(e.input == model::pack(&frame[1 + 16 * b..17 + 16 * b]), "C11: decryption block input");
                     model::unpack(e.output, &mut d[16 * b..16 * b + 16]);
                 }
                 b += 1;
             }
-            assert!(model::MIC_N == 1, "C11: one MIC computation");
+            crate::vcheck!(model::MIC_N == 1, "C11: one MIC computation");
             let m = &model::MICS[0];
-            assert!(m.key == model::pack(&appkey) && m.b0_len == 0 && m.len == len - 4, "C11: MIC under the root key over MHDR|decrypted payload");
+            crate::vcheck!(m.key == model::pack(&appkey) && m.b0_len == 0 && m.len == len - 4, "C11: MIC under the root key over MHDR|decrypted payload");
             if probe < len - 4 {
-                assert!(m.probe == if probe == 0 { frame[0] } else { d[probe - 1] }, "C11: MIC message bytes");
+                crate::vcheck!(m.probe == if probe == 0 { frame[0] } else { d[probe - 1] }, "C11: MIC message bytes");
             }
             valid = m.out[0] == d[len - 5] && m.out[1] == d[len - 4] && m.out[2] == d[len - 3] && m.out[3] == d[len - 2];
         } else {
-            assert!(model::ENC_N == 0 && model::MIC_N == 0, "C11: frames that are not JoinAccepts are not processed");
+            crate::vcheck!(model::ENC_N == 0 && model::MIC_N == 0, "C11: frames that are not JoinAccepts are not processed");
         }
     }
     match out {
         None => {
-            assert!(!(structure && valid), "C11: a JoinAccept with a valid MIC must be accepted");
-            assert!(mc::cfg_same(&cfg, &cfg0), "C07/C11: a rejected JoinAccept must leave the configuration unchanged");
-            assert!(rt::same(&mut region, &mut region0), "C07/C11: a rejected JoinAccept must leave the channel plan unchanged");
+            crate::vcheck!(!(structure && valid), "C11: a JoinAccept with a valid MIC must be accepted");
+            crate::vcheck!(mc::cfg_same(&cfg, &cfg0), "C07/C11: a rejected JoinAccept must leave the configuration unchanged");
+            crate::vcheck!(rt::same(&mut region, &mut region0), "C07/C11: a rejected JoinAccept must leave the channel plan unchanged");
             kani::cover!(structure, "info: JoinAccept with wrong MIC");
         }
         Some(s) => {
-            assert!(structure && valid, "C11: only a JoinAccept whose MIC verifies under the root key may be accepted");
+            crate::vcheck!(structure && valid, "C11: only a JoinAccept whose MIC verifies under the root key may be accepted");
             kani::cover!(true, "JoinAccept accepted");
             unsafe {
-                assert!(model::ENC_N == nb + 2, "C11: two key derivations");
+                crate::vcheck!(model::ENC_N == nb + 2, "C11: two key derivations");
                 let mut blk = [0u8; 16];
                 blk[0] = 0x01;
                 blk[1] = d[0]; blk[2] = d[1]; blk[3] = d[2];      // JoinNonce
@@ -122,32 +124,32 @@ fn join_accept_step(ri: usize, len: usize) {
                 blk[7] = devnonce as u8; blk[8] = (devnonce >> 8) as u8;
                 let e1 = model::ENC[nb];
                 let e2 = model::ENC[nb + 1];
-                assert!(e1.key == model::pack(&appkey) && e1.input == model::pack(&blk), "C11: NwkSKey = E(AppKey, 01|JoinNonce|NetID|DevNonce|pad) with the DevNonce just sent");
+                crate::vcheck!(e1.key == model::pack(&appkey) && e1.input == model::pack(&blk), "C11: NwkSKey = E(AppKey, 01|JoinNonce|NetID|DevNonce|pad) with the DevNonce just sent");
                 blk[0] = 0x02;
-                assert!(e2.key == model::pack(&appkey) && e2.input == model::pack(&blk), "C11: AppSKey = E(AppKey, 02|JoinNonce|NetID|DevNonce|pad)");
-                assert!(model::pack(s.nwkskey.as_ref()) == e1.output, "C11: NwkSKey is the derived key");
-                assert!(model::pack(s.appskey.as_ref()) == e2.output, "C11: AppSKey is the derived key");
+                crate::vcheck!(e2.key == model::pack(&appkey) && e2.input == model::pack(&blk), "C11: AppSKey = E(AppKey, 02|JoinNonce|NetID|DevNonce|pad)");
+                crate::vcheck!(model::pack(s.nwkskey.as_ref()) == e1.output, "C11: NwkSKey is the derived key");
+                crate::vcheck!(model::pack(s.appskey.as_ref()) == e2.output, "C11: AppSKey is the derived key");
             }
             let a = s.devaddr.as_wire_bytes();
-            assert!(a[0] == d[6] && a[1] == d[7] && a[2] == d[8] && a[3] == d[9], "C11: DevAddr is the assigned one");
-            assert!(s.fcnt_up == 0 && s.fcnt_down().is_none(), "C11: both frame counters restart");
-            assert!(s.uplink.mac_commands().len() == 0 && !s.uplink.confirms_downlink(), "C11: no stale answers in the new session");
+            crate::vcheck!(a[0] == d[6] && a[1] == d[7] && a[2] == d[8] && a[3] == d[9], "C11: DevAddr is the assigned one");
+            crate::vcheck!(s.fcnt_up == 0 && s.fcnt_down().is_none(), "C11: both frame counters restart");
+            crate::vcheck!(s.uplink.mac_commands().len() == 0 && !s.uplink.confirms_downlink(), "C11: no stale answers in the new session");
             // RxDelay
             let del = d[11] & 0x0f;
-            assert!(cfg.rx1_delay == if del == 0 { 1000 } else { del as u32 * 1000 }, "C11: RxDelay applied (0 means 1 s)");
+            crate::vcheck!(cfg.rx1_delay == if del == 0 { 1000 } else { del as u32 * 1000 }, "C11: RxDelay applied (0 means 1 s)");
             // DLSettings
             let off = (d[10] >> 4) & 7;
             let r2 = d[10] & 0x0f;
             let exp_off = if region0.rx1_dr_offset_validate(off).is_some() { off } else { cfg0.rx1_dr_offset };
-            assert!(cfg.rx1_dr_offset == exp_off, "C11: RX1 offset applied when valid for the region, ignored otherwise");
+            crate::vcheck!(cfg.rx1_dr_offset == exp_off, "C11: RX1 offset applied when valid for the region, ignored otherwise");
             let r2_def = r2 < 15 && region0.get_datarate(r2).is_some();
             let exp_r2 = if r2_def { Some(DR::from(r2)) } else { cfg0.rx2_data_rate };
-            assert!(cfg.rx2_data_rate == exp_r2, "C11: RX2 data rate applied when the region defines it, ignored otherwise");
+            crate::vcheck!(cfg.rx2_data_rate == exp_r2, "C11: RX2 data rate applied when the region defines it, ignored otherwise");
             let mut c2 = cfg;
             c2.rx1_delay = cfg0.rx1_delay;
             c2.rx1_dr_offset = cfg0.rx1_dr_offset;
             c2.rx2_data_rate = cfg0.rx2_data_rate;
-            assert!(mc::cfg_same(&c2, &cfg0), "C11: nothing else in the configuration changes on join");
+            crate::vcheck!(mc::cfg_same(&c2, &cfg0), "C11: nothing else in the configuration changes on join");
             // CFList
             if len == 33 {
                 let ty = d[27];
@@ -155,14 +157,14 @@ fn join_accept_step(ri: usize, len: usize) {
                     if ty == 1 {
                         let mut b = 0;
                         while b < 9 {
-                            assert!(rt::mask_bank(&mut region, b) == d[12 + b], "C11: CFList type 1 sets the 72-channel mask");
+                            crate::vcheck!(rt::mask_bank(&mut region, b) == d[12 + b], "C11: CFList type 1 sets the 72-channel mask");
                             b += 1;
                         }
                         kani::cover!(true, "info: CFList type 1 applied");
                     } else {
                         let mut b = 0;
                         while b < 9 {
-                            assert!(rt::mask_bank(&mut region, b) == rt::mask_bank(&mut region0, b), "C11: other CFList types leave the mask alone");
+                            crate::vcheck!(rt::mask_bank(&mut region, b) == rt::mask_bank(&mut region0, b), "C11: other CFList types leave the mask alone");
                             b += 1;
                         }
                     }
@@ -173,19 +175,19 @@ fn join_accept_step(ri: usize, len: usize) {
                     let f = (d[12 + 3 * n] as u32 | (d[13 + 3 * n] as u32) << 8 | (d[14 + 3 * n] as u32) << 16) * 100;
                     let (present, ul, dl, _) = rt::rd_channel_info(&mut region, j + n);
                     if f == 0 {
-                        assert!(!present, "C11: CFList frequency 0 leaves the slot unused");
+                        crate::vcheck!(!present, "C11: CFList frequency 0 leaves the slot unused");
                     } else if rt::freq_in_band(&mut region0, f) {
-                        assert!(present && ul == f && dl == f, "C11: CFList type 0 defines channels J..J+4");
+                        crate::vcheck!(present && ul == f && dl == f, "C11: CFList type 0 defines channels J..J+4");
                         kani::cover!(true, "info: CFList type 0 channel created");
                     }
                 } else {
-                    assert!(rt::same(&mut region, &mut region0), "C11: RFU / foreign CFList types are ignored");
+                    crate::vcheck!(rt::same(&mut region, &mut region0), "C11: RFU / foreign CFList types are ignored");
                 }
             } else {
-                assert!(rt::same(&mut region, &mut region0), "C11: no CFList, no channel plan change");
+                crate::vcheck!(rt::same(&mut region, &mut region0), "C11: no CFList, no channel plan change");
             }
-            assert!(mc::cfg_inv(&cfg, &region), "C04/C11: configuration invariant after join");
-            assert!(rt::inv(&mut region, cfg.data_rate), "C04/C09/C11: channel plan invariant after join (usable, in-band channels)");
+            crate::vcheck!(mc::cfg_inv(&cfg, &region), "C04/C11: configuration invariant after join");
+            crate::vcheck!(rt::inv(&mut region, cfg.data_rate), "C04/C09/C11: channel plan invariant after join (usable, in-band channels)");
         }
     }
 }
